@@ -549,7 +549,7 @@ def load_known(pid):
     if os.path.exists(KNOWN):
         for line in open(KNOWN):
             line = line.strip()
-            if not line or line.startswith("#"):
+            if not line or line.startswith("#") or line.startswith("fixed:"):
                 continue
             k = json.loads(line)
             if k.get("property") == pid:
